@@ -255,6 +255,13 @@ class Pool(object):
                 p_, e_ = hz["vals"][k]
                 hz["vals"][k] = (p_ * 1e13, e_)
         self.inputs.append(hz)
+        # differs from the base input in ONE vacancy transition barrier only, the highest one (the slowest jump type):
+        # whatever is derived from the fastest rate alone is bit-identical for the two, the rest is not
+        ob = clone(b0, "one-barrier")
+        if len(cl["omega0"]) > 1:
+            kmax = max((("omega0", c[0]) for c in cl["omega0"]), key=lambda k: ob["vals"][k][1])
+            ob["vals"][kmax] = (ob["vals"][kmax][0], ob["vals"][kmax][1] + 0.37)
+            self.inputs.append(ob)
         if nwyckoff > 1:
             # differs only in one vacancy-site energy (catches keys that ignore a field)
             w = clone(b0, "one-site-energy")
